@@ -44,3 +44,4 @@ git -C /repo status --short
 echo DONE | tee -a $OUT
 run D16 9329cef "C13"
 run D17 2efc289 "C07 C13 C01"
+run D18 5854f53 "C15"
